@@ -207,6 +207,6 @@ def peg (P : Program) (inp : List Nat) : Nat → Expr → Nat → Option Res
       | some (some (v, p')) => some (.ok v p')
     | .backtrack n => if n ≤ p then some (.ok .none (p - n)) else some .fail
     | .fail => some .fail
-    | .py v => some (.ok v p)
+    | .py c => some (.ok c.toVal p)
 
 end Sourcer
